@@ -15,6 +15,8 @@ TRUSTED = [
 
 
 def write(prop, tier, seed, mod, results, obs, canaries, violations, known_hits, undecided, errors, wall, code):
+    kf = {id(o) for _, o in known_hits}
+    obs = [o for o in obs if id(o) not in kf]  # obligations failing exactly as listed in known_findings.json are reported separately
     n_dis = len([o for o in obs if o["verdict"] == "unsat"])
     backends = {}
     for o in obs:
